@@ -298,6 +298,45 @@ def run(tier="quick", seed=0, jobs=16):
         rep.ob(f"IN input check: a column x_{g} that varies within {g}_id is rejected, a constant one is accepted", "discharged" if good else "refuted", "exhaustive-run", 0, "src/_gettsim/interface.py:436", "input-contract", str(ok))
         if not good:
             rep.violation(f"input-check:{g}", f"_fail_if_group_variables_not_constant_within_groups accepts a column x_{g} with several values within one {g}_id (values [1.0, 2.0] in group 0): group-level columns computed from it inherit several values per group", {"obligation": f"IN {g}", "data": {f"{g}_id": [0, 0, 1], f"x_{g}": [1.0, 2.0, 5.0]}}, True)
+    # API stand-in (bounded, never counted as proved): in the frame the user gets back -- default and permuted
+    # index labels, debug on and off -- every group-suffixed column is constant within the group id
+    # column of the same frame
+    from _gettsim.config import DEFAULT_TARGETS
+
+    from vt import apirel
+
+    e_ = venv.Env("2023-07-01")
+    pop_ = popgen.population(["family", "pensioners", "single_parent", "couple"], year=2023, seed=seed)
+    n_api = 0
+    bad_api = []
+    gcols = None
+    for label, idx in (("default", None), ("permuted", [5, 3, 8, 0, 9, 1, 7, 2, 6, 4, 10, 11][: len(pop_)] if len(pop_) <= 12 else list(reversed(range(len(pop_)))))):
+        data_ = pop_.copy()
+        if idx is not None and len(idx) == len(data_):
+            data_.index = idx
+        elif idx is not None:
+            data_.index = list(reversed(range(len(data_))))
+        for debug in (False, True):
+            tg = [t for t in DEFAULT_TARGETS] + ["bg_id", "fg_id", "eg_id", "sn_id", "wthh_id", "ehe_id"]
+            try:
+                res_, _ = apirel.simulate(e_, data_, targets=tg, debug=debug)
+            except Exception as ex:  # noqa: BLE001
+                bad_api.append(f"index {label}, debug={debug}: call fails {ex!r}"[:200])
+                continue
+            n_api += 1
+            for c in res_.columns:
+                g_ = suffix_of(c, sorted(SUPPORTED_GROUPINGS, key=len, reverse=True))
+                if g_ is None or res_[c].dtype == object:
+                    continue
+                gid_ = res_[f"{g_}_id"] if f"{g_}_id" in res_.columns else data_[f"{g_}_id"] if f"{g_}_id" in data_.columns else None
+                if gid_ is None:
+                    continue
+                nun = res_.groupby(gid_.to_numpy())[c].nunique(dropna=False)
+                if (nun > 1).any():
+                    bad_api.append(f"index labels {label}, debug={debug}: column {c} has {int(nun.max())} values within one {g_}_id of the returned frame")
+    rep.bounded["api_group_constancy"] = {"evaluations": n_api, "distinct_nontrivial": n_api, "rule": "one population of four households x {default, permuted} index labels x debug on/off: every group-suffixed column of the returned frame (default targets, and all computed nodes in debug mode) is constant within the group id column of that frame", "failures": bad_api[:5]}
+    for i, b in enumerate(bad_api[:3]):
+        rep.violation(f"api-constancy:{i}:{b[:60]}", b, {"what": b, "kind": "bounded stand-in"}, True)
     rep.functions.add("every scalar rule with a group suffix in the default-target DAG (see obligations)")
     rep.samples = rep.obligations[:3] + [o for o in rep.obligations if o["status"] == "refuted"][:2]
     return rep.finish({"date_classes": len(classes), "group_level_node_instances": n_nodes, "distinct_obligations": len(items)})
